@@ -81,6 +81,27 @@ fn single_calls(mon: &mut Monitor, reg: &[Entry], inputs: u64, miri: bool) {
                     }
                 }
             }
+            // operands of one call with *different* hidden lanes (e.g. `==` of two masks, a product of two vectors)
+            if !miri || i == 0 {
+                for k in 0..if miri { 1 } else { 3 } {
+                    let mut s1 = Src::new(sd, mode);
+                    s1.hidden = Hidden::Mixed { start: (i as u32).wrapping_mul(7).wrapping_add(k * 3) };
+                    let got = catch_unwind(AssertUnwindSafe(|| (e.call)(&mut s1)));
+                    c.event(0xf000 | k as u64, true);
+                    let bad = match (&base, &got) {
+                        (Ok(a), Ok(b)) => !same(a, b),
+                        (Err(_), Err(_)) => false,
+                        _ => true,
+                    };
+                    if bad {
+                        if c.wants_witness("hidden_lane_dependence", &["mixed"]) {
+                            c.violation("hidden_lane_dependence", &["mixed"], format!("{}::{} input seed {} mode {:?}, every padded operand with a different hidden lane", e.ty, e.name, sd, mode), got.as_ref().map(show).unwrap_or_else(|_| "panic".into()), base.as_ref().map(show).unwrap_or_else(|_| "panic".into()), "results must be bit-identical for bit-identical visible lanes".into());
+                        } else {
+                            c.st.violations += 1;
+                        }
+                    }
+                }
+            }
             if c.need_sample() {
                 if let Ok(b) = &base {
                     c.sample(format!("{}::{} -> {} under {} hidden-lane contents", e.ty, e.name, show(b), plist.len()));
@@ -113,7 +134,7 @@ fn programs(mon: &mut Monitor, reg: &[Entry]) {
                 if (p as usize + pi) % 2 == 0 {
                     continue;
                 }
-                let got = run(Hidden::Poison { bits: *bits, route: (pi % 3) as u8 });
+                let got = if pi % 3 == 1 { run(Hidden::Mixed { start: p as u32 + pi as u32 }) } else { run(Hidden::Poison { bits: *bits, route: (pi % 3) as u8 }) };
                 c.event((len as u64) << 8 | pi as u64, true);
                 for k in 0..len {
                     let bad = match (&base[k], &got[k]) {
